@@ -205,13 +205,16 @@ structure Ctx where
   confedId : Nat
   deriving DecidableEq, Repr, Inhabited
 
-/-- `table::Path` (+ `attrId`: identity of the `Arc<Vec<Attribute>>`, used only by the RIB model). -/
+/-- `table::Path` (+ `attrId`, `srcIdx`: identities of the two `Arc`s, used only by the RIB model). -/
 structure Path where
   pid : Nat
   src : Source
   nh : Option Nh
   attrs : Attrs
   attrId : Nat := 0
+  /-- identity of the `Arc<Source>` (index into the case's source list), RIB model only: the
+      LLGR-stale flag lives on the shared source and is read when a change is *processed* -/
+  srcIdx : Nat := 0
   deriving DecidableEq, Repr, Inhabited
 
 /-! ## Export policy: the fragment the C09/C01 cases use (one unconditional statement) -/
@@ -246,39 +249,51 @@ def addrToNh : Addr → Nh
 
 def clampU32 (i : Int) : Nat := if i < 0 then 0 else if i > 4294967295 then 4294967295 else i.toNat
 
-/-- `Statement::apply` for a statement without conditions, then `Policy::apply` /
-    `PolicyAssignment::apply` (first non-Pass disposition, else the default). -/
+/-- the statement's conditions (`Condition::Origin(v)` or none) -/
+def policyMatched (p : Policy) (attrs : Attrs) : Bool :=
+  match p.cond with
+  | none => true
+  | some v => ((findCode ORIGIN attrs).bind value?) = some v
+
+/-- nexthop action of `Statement::apply` -/
+def policyNh (p : Policy) (nh origNh : Option Nh) (localAddr peerAddr : Addr) : Option Nh :=
+  match p.nh with
+  | none => nh
+  | some (.addr a) => some (addrToNh a)
+  | some .self => some (addrToNh localAddr)
+  | some .peer => some (addrToNh peerAddr)
+  | some .unchanged => match origNh with
+      | some o => some o
+      | none => nh
+
+/-- community ADD action -/
+def policyComm (p : Policy) (attrs : Attrs) : Attrs :=
+  if p.comm.isEmpty then attrs
+  else dropCode COMMUNITY attrs ++ [words COMMUNITY (((findCode COMMUNITY attrs).bind words?).getD [] ++ p.comm)]
+
+def medValue (act : MedAct) (cur : Nat) : Nat :=
+  match act with
+  | .mod d => clampU32 ((cur : Int) + d)
+  | .set v => clampU32 v
+
+/-- MED action -/
+def policyMed (p : Policy) (attrs : Attrs) : Attrs :=
+  match p.med with
+  | none => attrs
+  | some act => dropCode MED attrs ++ [val MED (medValue act (((findCode MED attrs).bind value?).getD 0))]
+
+def policyDisp (p : Policy) : Disp :=
+  match p.disp with
+  | .pass => p.dflt
+  | d => d
+
+/-- `Statement::apply` (conditions, then the nexthop, community and MED actions in that order),
+    then `Policy::apply` / `PolicyAssignment::apply` (first non-Pass disposition, else the default). -/
 def applyPolicy (p : Policy) (attrs : Attrs) (nh : Option Nh) (origNh : Option Nh)
     (localAddr peerAddr : Addr) : Disp × Attrs × Option Nh :=
-  let matched := match p.cond with
-    | none => true
-    | some v => ((findCode ORIGIN attrs).bind value?) = some v
-  if !matched then (p.dflt, attrs, nh) else
-  let nh1 := match p.nh with
-    | none => nh
-    | some (.addr a) => some (addrToNh a)
-    | some .self => some (addrToNh localAddr)
-    | some .peer => some (addrToNh peerAddr)
-    | some .unchanged => match origNh with
-        | some o => some o
-        | none => nh
-  let attrs1 :=
-    if p.comm.isEmpty then attrs
-    else
-      let existing := ((findCode COMMUNITY attrs).bind words?).getD []
-      dropCode COMMUNITY attrs ++ [words COMMUNITY (existing ++ p.comm)]
-  let attrs2 := match p.med with
-    | none => attrs1
-    | some act =>
-        let cur := ((findCode MED attrs1).bind value?).getD 0
-        let nv := match act with
-          | .mod d => clampU32 ((cur : Int) + d)
-          | .set v => clampU32 v
-        dropCode MED attrs1 ++ [val MED nv]
-  let d := match p.disp with
-    | .pass => p.dflt
-    | d => d
-  (d, attrs2, nh1)
+  if policyMatched p attrs then
+    (policyDisp p, policyMed p (policyComm p attrs), policyNh p nh origNh localAddr peerAddr)
+  else (p.dflt, attrs, nh)
 
 /-! ## export.rs -/
 
@@ -332,23 +347,25 @@ def opaquePass (as : Attrs) : Attrs :=
     else if a.isTransitive then some a.withPartialBit
     else none)
 
+/-- the role-specific part of `export_attrs`, before the opaque pass -/
+def roleAttrs (c : Ctx) (as : Attrs) : Attrs :=
+  match c.role with
+  | .rsClient => as
+  | .ibgp | .rrClient => injectLocalPrefIfAbsent as
+  | .confed =>
+      let has := hasCode AS_PATH as
+      let m := mapAsPath (asPathPrependConfed c.localAsn) as
+      if has then m else m ++ [aspath (asPathPrependConfed c.localAsn [])]
+  | .ebgp =>
+      let asn := if c.confedId ≠ 0 then c.confedId else c.localAsn
+      let has := hasCode AS_PATH as
+      let kept := as.filter (fun a =>
+        !(a.code = LOCAL_PREF ∨ a.code = ORIGINATOR_ID ∨ a.code = CLUSTER_LIST ∨ a.code = AIGP))
+      let m := mapAsPath (fun s => asPathPrepend asn (asPathStripConfed s)) kept
+      if has then m else m ++ [aspath (asPathPrepend asn [])]
+
 /-- `PeerExportContext::export_attrs` -/
-def exportAttrs (c : Ctx) (as : Attrs) : Attrs :=
-  let exported : Attrs := match c.role with
-    | .rsClient => as
-    | .ibgp | .rrClient => injectLocalPrefIfAbsent as
-    | .confed =>
-        let has := hasCode AS_PATH as
-        let m := mapAsPath (asPathPrependConfed c.localAsn) as
-        if has then m else m ++ [aspath (asPathPrependConfed c.localAsn [])]
-    | .ebgp =>
-        let asn := if c.confedId ≠ 0 then c.confedId else c.localAsn
-        let has := hasCode AS_PATH as
-        let kept := as.filter (fun a =>
-          !(a.code = LOCAL_PREF ∨ a.code = ORIGINATOR_ID ∨ a.code = CLUSTER_LIST ∨ a.code = AIGP))
-        let m := mapAsPath (fun s => asPathPrepend asn (asPathStripConfed s)) kept
-        if has then m else m ++ [aspath (asPathPrepend asn [])]
-  opaquePass exported
+def exportAttrs (c : Ctx) (as : Attrs) : Attrs := opaquePass (roleAttrs c as)
 
 /-- the closure `local` of `export_nexthop` -/
 def selfNh (c : Ctx) : Nh :=
@@ -391,23 +408,28 @@ def visible (s : Sess) (p : Path) : Bool :=
   !ibgpSplitHorizonSuppress p.src s.ctx.role s.cluster &&
   !rsIsolationSuppress p.src s.ctx.role
 
-/-- the `policy_result` closure / `filter_map` body: pre-policy defaults, export policy, RR
-    reflection, LLGR_STALE, then `export_attrs`.  `none` = rejected by policy. -/
+/-- first half of the `policy_result` closure / `filter_map` body: pre-policy defaults, then the
+    export policy.  `none` = rejected by policy. -/
+def policyStage (s : Sess) (p : Path) : Option (Attrs × Option Nh) :=
+  let r0 := prePolicyDefaults s.ctx p.attrs p.nh s.fam p.src.isLocal
+  match s.policy with
+  | none => some r0
+  | some pol =>
+      let r1 := applyPolicy pol r0.1 r0.2 p.nh s.ctx.localAddr s.remoteAddr
+      if r1.1 = .reject then none else some r1.2
+
+/-- "RR reflection: add ORIGINATOR_ID and prepend CLUSTER_LIST" -/
+def reflectStage (s : Sess) (p : Path) (as : Attrs) : Attrs :=
+  match s.cluster with
+  | some cid => if isIbgpLearned p.src then rrReflectAttrs as p.src.routerId cid else as
+  | none => as
+
+def llgrStage (p : Path) (as : Attrs) : Attrs :=
+  if p.src.llgr then withLlgrStaleCommunity as else as
+
+/-- the whole per-path export: policy stage, RR reflection, LLGR_STALE, then `export_attrs` -/
 def xform (s : Sess) (p : Path) : Option (Attrs × Option Nh) :=
-  let (as0, nh0) := prePolicyDefaults s.ctx p.attrs p.nh s.fam p.src.isLocal
-  let r : Option (Attrs × Option Nh) := match s.policy with
-    | none => some (as0, nh0)
-    | some pol =>
-        let (d, as1, nh1) := applyPolicy pol as0 nh0 p.nh s.ctx.localAddr s.remoteAddr
-        if d = .reject then none else some (as1, nh1)
-  match r with
-  | none => none
-  | some (as1, nh1) =>
-      let as2 := match s.cluster with
-        | some cid => if isIbgpLearned p.src then rrReflectAttrs as1 p.src.routerId cid else as1
-        | none => as1
-      let as3 := if p.src.llgr then withLlgrStaleCommunity as2 else as2
-      some (exportAttrs s.ctx as3, nh1)
+  (policyStage s p).map (fun r => (exportAttrs s.ctx (llgrStage p (reflectStage s p r.1)), r.2))
 
 /-! ## ExportMap and process_nlri_change, generic in the per-path export function -/
 
